@@ -31,7 +31,9 @@ def docs():
     # the schema itself imports one of the packages: %import of it is redundant, of another one is not
     d4 = SCHEMA(types=[ABS("abs1"), schemas.IMPORT("zcvpkg_a"), TYPE("t1", [], implements="abs1")],
                 children=[MSEC("abs1", "*", "impls")])
-    return [d1, d2, d3, d4]
+    # a component type that extends a type of the schema under another key type
+    d5 = SCHEMA(types=list(packages.CONTEXT), children=[MSEC("abs1", "*", "impls"), MSEC("wbase", "+", "bases")])
+    return [d1, d2, d3, d4, d5]
 
 
 LINES = {
@@ -41,6 +43,7 @@ LINES = {
         "<pc1 n2/>", "<pa1 fixed/>", "<t2 n3/>", "<pa2/>", "%import zcvpkg_a."],
     2: ["%import zcvpkg_a", "%import zcvpkg_b", "<box>", "</box>", "<pa1 n1/>", "<pb1/>", "<pa1/>", "%import zcvpkg_c"],
     3: ["%import zcvpkg_a", "%import zcvpkg_b", "<pa1 n1/>", "<pb1 n2/>", "<pa2/>", "<t1/>", "%import zcvpkg_nocomp"],
+    4: ["%import zcvpkg_d", "<pd1 n1/>", "<wbase n2/>", "<wbase n3>", "</wbase>", "Gamma gv", "<pd1>", "</pd1>", "own v1"],
 }
 
 
@@ -121,6 +124,9 @@ def run(chk):
             for n in range(0, maxlen + 1):
                 for combo in itertools.product(LINES[sid], repeat=n):
                     if sid == 2 and combo.count("<box>") != combo.count("</box>"):
+                        continue
+                    if sid == 4 and (combo.count("<pd1>") + combo.count("<wbase n3>")
+                                     != combo.count("</pd1>") + combo.count("</wbase>")):
                         continue
                     sc.add(sid, {"d/main.conf": list(combo)}, meta={"nontrivial": n > 0})
         outs = sc.run_spec(chk)
